@@ -44,6 +44,11 @@ def run(ctx):
     ctx.min_instances('C20.R5', 10)
     r6(ctx)
     ctx.min_instances('C20.R6', 2)
+    from . import _rowtear
+    _rowtear.check(ctx, 'C20.R7', ('orificing',))
+    ctx.decided.append(
+        'R7 record tables (assembly id, type, ...) are never sorted column '
+        'by column (np.sort(..., axis=0)); rows move as a whole')
     ctx.min_instances('C20.R1', 5)
     ctx.min_instances('C20.R2', 4)
     ctx.min_instances('C20.R3', 6)
